@@ -181,6 +181,13 @@ class C03Kernel(Kernel):
             if name in ('array', 'asarray') and len(args) == 1:
                 v = self.expr_or_pair(args[0], env)
                 return v
+        if isinstance(fn, ast.Name) and fn.id in ('min', 'max') and len(args) == 2 and not node.keywords:
+            # Python's min(a, b) returns b when b < a, else a; max(a, b) returns b when b > a, else a
+            a, b = self.bind('ma', self.expr(args[0], env)), self.bind('mb', self.expr(args[1], env))
+            if a.kind in ('num', 'int') and b.kind in ('num', 'int') and 'num' in (a.kind, b.kind):
+                an, bn = paren(self.to_num(a)), paren(self.to_num(b))
+                c = f'ltb_ {bn} {an}' if fn.id == 'min' else f'ltb_ {an} {bn}'
+                return V('num', f'(if {c} then {bn} else {an})')
         if isinstance(fn, ast.Name) and fn.id in RAY_CTORS and not node.keywords:
             return V('tuple', items=[self.expr(a, env) for a in args])
         pairs = self.spec.get('opaque_pairs', ())
